@@ -155,6 +155,25 @@ def extract(repo: Path) -> Tuple[Dict[str, Any], List[str]]:
         else:
             problems.append("_lowlevel.analyze_with_blocks: `skip_insns = <a> if is_async else <b>` not found")
 
+    # ---- _lowlevel_cpython_311.py: where the value stack starts (number of localsplus slots) ----
+    t311 = parse("_lowlevel_cpython_311.py")
+    if t311 is not None:
+        fn = _func(t311, "inspect_frame")
+        expr = None
+        if fn is not None:
+            for n in ast.walk(fn):
+                if isinstance(n, ast.Assign) and getattr(n.targets[0], "id", None) == "stack_start_offset":
+                    v = n.value
+                    # localsplus_offset + wordsize * (<number of slots>)
+                    if isinstance(v, ast.BinOp) and isinstance(v.op, ast.Add) and isinstance(v.right, ast.BinOp) and isinstance(v.right.op, ast.Mult):
+                        expr = ast.unparse(v.right.right)
+                    else:
+                        expr = "?: " + ast.unparse(v)
+        if expr is None:
+            problems.append("_lowlevel_cpython_311.inspect_frame: `stack_start_offset = localsplus_offset + wordsize * (...)` not found")
+        else:
+            out["nlocalsplusExpr"] = expr
+
     # ---- _types.py: the marker table ----
     t = parse("_types.py")
     if t is not None:
